@@ -21,7 +21,7 @@ claim('C02', 'Lean 4 theorems (lines tile the file; messages partition; find_sys
       "find-then-drop discipline of exec_syslogprocessor (SyslCacheSpec; two latent library defects outside that discipline are proved as counter-models and reproduced on the real reader); the printer writes exactly the message's parts in order through "
       "its 2056-byte buffer (PrintSpec: C13_parts_bytes, C19_printed_eq_written, macro bodies regenerated from printers.rs). LineReader::find_line itself is REGENERATED from linereader.rs as a program (101 statements) whose interpreter is proved equal to the hand models for every store and block size (LineSkelSpec: C12_findLine_skeleton_is_model, C12_findLineCached_skeleton_is_model, C02_history_skeleton_is_model), and with the previous line stored it never requests a block below the offset's block (C05_findLine_no_lookback; counter-model = seeded C12-d); ten mutants regenerated from edited source text each falsify a named statement; component lskel compares real = hand = interpreter. The models are tied to the real readers by differential runs (exhaustive small files at every block size; random access with warm "
       "caches and drops; gz). The binary's stdout is compared byte for byte with the file suffix for 8 input shapes (CRLF, NUL/non-UTF-8, missing final newline, headless "
-      "prefix, multi-block lines, > 8096 bytes, lines longer than the print buffer). The acceptance gate is modelled and tied but is bs-dependent: known findings F1, F2.",
+      "prefix, multi-block lines, > 8096 bytes, lines longer than the print buffer). find_line_in_block and drop_line are regenerated too (LineSkel2Spec). The acceptance gate is modelled, REGENERATED as a decision skeleton whose interpreter equals the hand model on all inputs (GateSkelSpec: C02_gate_skeleton_is_model), and tied (gskel), but is bs-dependent: known findings F1, F2.",
       TB + "Modelled not verified: regex/chrono decide which lines are timestamped (parameter P; the regexes themselves are modelled under C04); completion of the in-block walk is an observed input of the cached sysline model.",
       "DESIGN.md §6 C02")
 
@@ -45,7 +45,7 @@ claim('C01', 'Lean 4 theorems on the coordinator transition system and the k-way
 claim('C06', 'Lean 4 theorems on the worker/bounded-channel/coordinator transition system (confluence, no early break, deadlock-freedom, iteration bound); event-trace replay under seeded delay plans; stdout-equality oracle',
       "Machine-checked on the protocol model with the channel capacity read from the source: every finished run, whatever the interleaving, has printed merge(scripts); "
       "the early-break path is unreachable when every worker sends FileInfo first (and a counter-model shows that discipline is needed); some step is always enabled "
-      "(no deadlock) for capacity >= 1; iterations are bounded. Tie: every event of real traces taken under seeded send/poll delays must be an enabled model transition and "
+      "(no deadlock) for capacity >= 1; iterations are bounded. The coordinator loop itself is REGENERATED from processing_loop (wait condition as written, which channels are polled, the ordered effects of the four receive arms, the print branch, the exits) and its interpreter is proved EQUAL to the hand transition function on every live state (CoordSkelSpec: C06_coord_skeleton_is_model, skelRun_eq_run), so the C06/C01 theorems hold of the regenerated loop; eight mutants (wait `!=`->`<`, dropped fileinfo clause, no removal on disconnect, eager print, select_timeout = seeded C06-a, ...) are decided wrong on concrete runs; workers start unconditionally (dispatcher facts regenerated; counter-model bounded_pool_deadlocks = seeded C06-d). Tie: every event of real traces taken under seeded send/poll delays must be an enabled model transition and "
       "the model's final output must equal the real one; stdout must be byte-identical across delay plans.",
       TB + "Runtime behaviour the model cannot exhibit: OS scheduling fairness, crossbeam internals (assumed FIFO per channel, select returns a ready channel).",
       "DESIGN.md §6 C06")
